@@ -97,6 +97,7 @@ func verifHelperMain(args []string) int {
 	case "refserver":
 		return verifHelperServer(fault, log)
 	case "proc":
+		log.put(map[string]any{"ev": "pid", "pid": os.Getpid()})
 		return verifHelperProc(fault)
 	case "scriptclient":
 		if len(args) > 3 {
